@@ -105,7 +105,7 @@ class C19(Check):
                 "Pox.C19.flood_ports_defect_outside_tree"]
     anchors = [("pox/openflow/discovery.py", 168, 206), ("pox/openflow/discovery.py", 322, 486),
                ("pox/openflow/spanning_tree.py", 47, 106), ("pox/openflow/spanning_tree.py", 156, 227),
-               ("pox/lib/packet/lldp.py", 110, 189)]
+               ("pox/lib/packet/lldp.py", 112, 199)]
     trusted_base = ["models Model/STree.lean and Model/Discovery.lean hand-written from spanning_tree.py / discovery.py / lldp.py; tied by this correspondence run",
                     "the culling loop of _calc_spanning_tree is modelled as written (dict-of-dicts as one insertion-ordered association list) and proved equal to the closed form "
                     "the other proofs use (cull_loop_is_closed_form); the iteration order of the `switches` set is an oracle argument fed from the harness",
@@ -115,7 +115,7 @@ class C19(Check):
                    "cables are point to point (a port is an end of at most one cable) and join two different switches; a switch with two of its own ports cabled together makes "
                    "_calc_spanning_tree raise AssertionError (theorem calc_raises_iff_selfloop; modelled, compared, but outside the property's quantifier)",
                    "a PacketIn is only ever received from a connected switch; ConnectionUp is raised only for a switch that is not connected",
-                   "LLDP payloads are ASCII; TLV types 7, 8, 127 are not modelled; clock values are multiples of 1/8 s (exact in binary64)"]
+                   "LLDP payloads are ASCII; TLV type 8 (management address) is not modelled; clock values are multiples of 1/8 s (exact in binary64)"]
     design_ref = "DESIGN.md §5 C19, Appendix D.7"
     technique = ("Lean 4 proof (loop invariant of the work-list traversal; induction over histories) + differential correspondence of the compiled model against "
                  "_calc_spanning_tree, Discovery, LLDPSender, spanning_tree handlers and the LLDP packet classes + independent union-find oracle")
@@ -265,7 +265,7 @@ class C19(Check):
             self._mk_frame([ch, sd, tt, end]),                              # second TLV is not a PORT_ID
             self._mk_frame([ch, po, tt, sd], tail=b"\x00"),                 # the loop runs out of bytes
             self._mk_frame([ch, po, tt], tail=b"\x0c\x64abc"),              # declared length beyond the data
-            self._mk_frame([ch, po, tt], tail=b"\x0c\x03ab"),               # declared length 3, two data bytes (D14 bound check)
+            self._mk_frame([ch, po, tt], tail=b"\x0c\x03ab"),               # declared length 3, two data bytes (bound check incl. header)
             self._mk_frame([ch, po, tt, (6, b"12345678"), end]),            # 8-byte system description: FlowVisor style
             self._mk_frame([(1, b"\x07dpid:2a"), (2, b"\x02\x00\x11"), tt, end]),   # 16-bit binary port id
             self._mk_frame([(1, b"\x04\x00\x00\x00\x00\x00\x2a"), po, tt, end]),  # MAC chassis id
@@ -301,6 +301,10 @@ class C19(Check):
                 tl.append((4, b"port")); tl.append((6, b"x")); tl.append((6, b"dpid:77"))
             elif r < 0.55:
                 tl.append((42, b"\x01\x02"))
+            elif r < 0.62:
+                tl.append((7, rng.choice([b"\x00\x04\x00\x04", b"\x00\x04", b""])))
+                tl.append((127, rng.choice([b"\x00\x12\x0f\x01\x03", b"\x00\x12", b"\x00\x12\x0f\x01"])))
+                tl.append((6, b"dpid:" + rng.choice(lits)))
             tl.append((0, b""))
             r = rng.random()
             if r < 0.06: tl = tl[:-1]                                   # no END
